@@ -1,5 +1,6 @@
 import OtelVerif.Lemmas.AttrSet
 import OtelVerif.Lemmas.SeriesStore
+import OtelVerif.Lemmas.SeriesKey
 /-! # C08 — metric series are keyed by attribute-set value; filters and limits lose nothing
 
 Declarative side, written from the property text:
@@ -293,7 +294,7 @@ theorem total_mergeTables {K A V M : Type} [DecidableEq K] [AddCommMonoid M] (c 
     many attribute sets were folded into the overflow series. -/
 theorem overflow_conserves_total {K A V M : Type} [DecidableEq K] [AddCommMonoid M] (c : Cfg K A V) (ms : Measure c.ag M)
     (hiter : ∀ l, (c.iter l).Perm l) (ops : List (Op K V)) (hops : ∀ r, Op.collect r ∈ ops → r < c.temps.length) :
-    ((Store.run c (Store.init c) ops).2.map fun o => (o.1, outTotal ms.μ o.2)) = specTotals c ms.w (fun _ => 0) 0 ops :=
+    ((Store.run c (Store.init c) ops).2.map fun o => (o.1, outTotal ms.μ o.2)) = specTotals c (fun _ => ms.w) (fun _ => 0) 0 ops :=
   run_totals c ms hiter ops (Store.init c) (fun _ => 0) 0 (sinv_init c ms) hops
 
 /-- the measure of a long counter: its value -/
@@ -304,9 +305,35 @@ def counterMeasure : Measure sumAgg Int :=
 theorem overflow_conserves_total_counter (limit : Nat) (temps : List Temporality) (iter : List (List KV × Int) → List (List KV × Int))
     (hiter : ∀ l, (iter l).Perm l) (ops : List (Op (List KV) Int)) (hops : ∀ r, Op.collect r ∈ ops → r < temps.length) :
     let c : Cfg (List KV) Int Int := { ag := sumAgg, ovf := overflowKey, limit := limit, temps := temps, iter := iter }
-    ((Store.run c (Store.init c) ops).2.map fun o => (o.1, outTotal (fun x : Int => x) o.2)) = specTotals c (fun v : Int => v) (fun _ => 0) 0 ops := by
+    ((Store.run c (Store.init c) ops).2.map fun o => (o.1, outTotal (fun x : Int => x) o.2)) = specTotals c (fun _ (v : Int) => v) (fun _ => 0) 0 ops := by
   intro c
   exact overflow_conserves_total c counterMeasure hiter ops hops
+
+/-! ## each series carries exactly the measurements of its attribute set (below the limit) -/
+
+/-- **series identity over whole histories**: as long as the history has fewer measurements than the limit leaves
+    room for (so nothing is folded), the series of key `k0` handed to a reader carries exactly the measurements whose
+    key is `k0` — those of the reader's interval for a delta reader, all so far for a cumulative reader — for every
+    number of readers and collection cycles and every enumeration order of the hash tables. -/
+theorem series_exact_below_limit {K A V M : Type} [DecidableEq K] [AddCommMonoid M] (c : Cfg K A V) (ms : Measure c.ag M)
+    (hiter : ∀ l, (c.iter l).Perm l) (ops : List (Op K V)) (hops : ∀ r, Op.collect r ∈ ops → r < c.temps.length)
+    (hroom : recordCount ops + 1 < c.limit) (k0 : K) :
+    ((Store.run c (Store.init c) ops).2.map fun o => (o.1, outKey k0 ms.μ o.2)) =
+      specTotals c (fun k v => if k = k0 then ms.w v else 0) (fun _ => 0) 0 ops :=
+  run_key_totals k0 c ms hiter ops (Store.init c) (fun _ => 0) 0 0 (sinvK_init k0 c ms) (by omega) hops
+
+/-- for a long counter whose measurements carry attribute lists `a` under the view filter `f`: the series of the
+    attribute list `a0` sums exactly the measurements whose attribute set equals `a0`'s as a key-to-value map after
+    filtering (`same_key_iff`) -/
+theorem series_exact_counter (f : Filter) (limit : Nat) (temps : List Temporality)
+    (iter : List (List KV × Int) → List (List KV × Int)) (hiter : ∀ l, (iter l).Perm l)
+    (a0 : List KV) :
+    let c : Cfg (List KV) Int Int := { ag := sumAgg, ovf := overflowKey, limit := limit, temps := temps, iter := iter }
+    ∀ ops : List (Op (List KV) Int), (∀ r, Op.collect r ∈ ops → r < temps.length) → recordCount ops + 1 < limit →
+    ((Store.run c (Store.init c) ops).2.map fun o => (o.1, outKey (keyOf f a0) (fun x : Int => x) o.2)) =
+      specTotals c (fun k (v : Int) => if k = keyOf f a0 then v else 0) (fun _ => 0) 0 ops := by
+  intro c ops hops hroom
+  exact series_exact_below_limit c counterMeasure hiter ops hops hroom (keyOf f a0)
 
 /-- the D10 history in the model: 3 × 3 new attribute sets under limit 2, cumulative reader — totals 3, 6, 9 -/
 example :
